@@ -194,6 +194,8 @@ def execute(case):
                 v('stepping-task-raised', f"task exception {views.get('task_exception')!r} cancelled={views.get('task_cancelled')}")
         else:
             classes.append('not-terminated')
+            if views.get('task_done') and views.get('task_cancelled') and not views.get('task_harness_cancelled'):
+                v('stepping-task-raised', f"state {final}, paused={views['paused']}: the task running step_until_terminated() ended cancelled although nobody cancelled it")
             if term_notes:
                 v('terminal-notification-while-live', str(term_notes))
 
